@@ -7,11 +7,10 @@ timeout = 900
 solver = "kissat"
 function = "LegalizerBase::computeCellOrder (the float ordering key, sliced from the loop body) (legalizer.cpp)"
 variants = [
-  {name = "small", defines = ["REGION_EXCLUDED", "SMALLMAG"], timeout = 600, bounded = "coordinates and sizes below 2^6 (float key lemma; larger magnitudes did not finish: 2^10 > 900 s)"},
-  {name = "main", defines = ["REGION_EXCLUDED"], tier = "thorough", timeout = 3600},
   {name = "kf_ordering_width", defines = ["REGION_ONLY", "SMALLMAG"], expect_fail = ["spec C11"]},
 ]
-assumptions = ["A(std::stable_sort is a stable sort by the key); paper induction over the legalization order: cells of a row are inserted left to right (this lemma), each conflict-free insertion costs 0 and lands on its target (unit c12_row_legalizer, variant noconflict), the own row is the unique zero-cost row",
+assumptions = ["NOT DECIDED: that the float key keeps the order for orderingWidth in [0,1]: the strict float inequality did not finish on any installed back end (kissat 900 s at magnitudes < 2^10, 600 s at < 2^6; cvc5 400 s) and is therefore not part of the claim; only its refutation outside [0,1] (the known finding) is run",
+               "A(std::stable_sort is a stable sort by the key); paper induction over the legalization order: cells of a row are inserted left to right (this lemma), each conflict-free insertion costs 0 and lands on its target (unit c12_row_legalizer, variant noconflict), the own row is the unique zero-cost row",
                "AbacusLegalizer::placeCell (row choice by minimal cost; lambda) is not under contract"]
 [replay]
 template = "replay/c01_legalize_history.cpp"
